@@ -306,7 +306,10 @@ def interfere_schedules(ctx):
                         schedule=go("p1", i) + go("p2", len(start2)) + go("p1", len(start1) - i)))
     for i in range(len(leave1) + 1):             # p1 removing, p2 allocates in between
         out.append(dict(source="interfere remove/alloc", nprocs=3, mode="fmmu", predicted=[], random=True,
-                        schedule=go("p1", len(start1) + i) + go("p2", len(start2)) + go("p1", len(leave1) - i)))
+                        schedule=go("p1", len(start1) + i) + go("p2", len(start2)) + go("p1", len(leave1) - i)
+                        # the newcomer is handed the second participant's window number first (the draw
+                        # is adversarial): taken while the bitmap still says so, a duplicate if it does not
+                        + [dict(p="p3", a=None, c=2)] * len(start2)))
     for i in range(len(leave1) + 1):             # p1 removing, p2 removes in between
         out.append(dict(source="interfere remove/remove", nprocs=3, mode="fmmu", predicted=[], random=True,
                         schedule=go("p1", len(start1)) + go("p2", len(start2)) + go("p3", len(start2))
